@@ -502,6 +502,10 @@ def replay(data: dict) -> bool:
             return not (lf() == rf())
         except Exception:  # noqa: BLE001
             return True
+    if r["op"] == "markereq":
+        a, b = mk.parse_marker(r["a"]), mk.parse_marker(r["b"])
+        eq = (a == b)
+        return eq != r["equal"] or (eq and hash(a) != hash(b))
     if r["op"] == "speceq":
         a, b = p_spec.dec_spec(r["a"]), p_spec.dec_spec(r["b"])
         return (a == b) != (b == a) or ((a == b) and hash(a) != hash(b))
